@@ -165,7 +165,7 @@ func runProcessor(t *testing.T, c *Case, o RunOpts) *Result {
 
 func genProcessor(r *simrt.RNG) *Case {
 	pl := ProcPlan{Threads: r.Range(1, 4), Buffer: r.Intn(4), Queue: r.Intn(3), Waiter: r.Intn(4) != 0}
-	if r.Intn(10) == 0 {
+	if rare(r, 10) {
 		pl.Threads = r.Range(5, 8) // GOMAXPROCS is pinned to 8
 		pl.Buffer = r.Pick(0, 1, 8, 16)
 	}
@@ -174,8 +174,11 @@ func genProcessor(r *simrt.RNG) *Case {
 	}
 	T := effectiveThreads(pl.Threads)
 	n := r.Pick(0, 1, maxInt(T-1, 0), T, T+1, 2*T+1, r.Intn(8))
-	if r.Intn(12) == 0 {
+	if rare(r, 12) {
 		n = r.Range(10, 24)
+		if currentTier == "thorough" && r.Bool() {
+			n = r.Range(25, 60)
+		}
 	}
 	pl.CollectFirst = r.Intn(3) == 0
 	if r.Intn(4) == 0 {
@@ -350,7 +353,7 @@ func runMap(t *testing.T, c *Case, o RunOpts) *Result {
 
 func genMap(r *simrt.RNG) *Case {
 	pl := MapPlan{Len: r.Intn(13), Threads: r.Range(1, 4), MaxChunk: r.Range(1, 5)}
-	if r.Intn(10) == 0 {
+	if rare(r, 10) {
 		pl.Len, pl.Threads = r.Range(13, 40), r.Range(1, 8)
 	}
 	if r.Intn(15) == 0 {
